@@ -144,7 +144,8 @@ enum {
     A_PAUSE,
     A_CRASHB,
     A_CRASHA,
-    A_EOF
+    A_EOF,
+    A_DTUNKNOWN /* readdir: deliver the entry with d_type = DT_UNKNOWN (file systems that do not fill it) */
 };
 
 struct rule {
@@ -461,6 +462,7 @@ static void parse_plan(const char *path) {
                 else if (!strcmp(v, "pause")) { r->act = A_PAUSE; r->arg = atol(a); }
                 else if (!strcmp(v, "crashb")) r->act = A_CRASHB;
                 else if (!strcmp(v, "crasha")) r->act = A_CRASHA;
+                else if (!strcmp(v, "dtunknown")) r->act = A_DTUNKNOWN;
             }
         }
         if (r->act != A_NONE) nrules++;
@@ -631,7 +633,7 @@ static void trace_line(const struct ev *e, long ret, int err, const char *extra)
     pct_enc(p1, sizeof p1, e->path ? e->path : "");
     pct_enc(p2, sizeof p2, e->path2 ? e->path2 : "");
     static const char *actn[] = {"-", "errno", "short", "shortrnd", "eintr", "delay",
-                                 "pause", "crashb", "crasha", "eof"};
+                                 "pause", "crashb", "crasha", "eof", "dtunknown"};
     char *line = malloc(sizeof p1 + sizeof p2 + 256);
     int n = sprintf(line, "E %ld %ld %d %d %s %ld %ld %d %s:%ld:%d %s %s %s\n", e->seq, e->mseq,
                     is_child, tid_idx(), e->kind, e->ord, ret, err, actn[e->act], e->arg,
@@ -1227,6 +1229,7 @@ struct dirent64 *readdir64(DIR *d) {
         errno = 0;
         r = real_readdir64(d);
         err = errno;
+        if (r && e.act == A_DTUNKNOWN) r->d_type = DT_UNKNOWN;
     }
     char extra[300];
     char enc[280];
